@@ -208,4 +208,18 @@ CHECKS = {
                 "documentation fixes an answer only when exactly one reading has a single .incn candidate; the catalogued classes are "
                 "genuine and stay reported as KNOWN-FINDING; three defects were repaired.",
     },
+    "C16": {
+        "level": "model_checking",
+        "technique": "TLA+ spec TestRunner (run_tests as a state machine, ghost ran/fin, harness runs|empty): TLC exhaustive over all "
+                     "scenarios with 1-3 tests; seeded feature/pairwise-cover scenarios realised as real test files with begin/end "
+                     "marker evidence and run through the real CLI; sessions compared with TLC CASE lines and validated by TLC (RunnerTrace)",
+        "text": "TestRunner.tla models every step of run_tests over ground truth x markers x keyword match x options. TLC checks "
+                "passed=>ran-to-completion, failed=>not, skip not run, xfail inversion, exact selection, judged = prefix of selection, "
+                "counters = verdict lines = summary, exit!=0 <=> FAILED/XPASS, the empty-selection rule and termination for all "
+                "three-test scenarios, and requires the empty-harness variant (the original defect) to violate the property. Real "
+                "`incan test` sessions on generated directories are compared with the spec's CASE and every recorded step is validated "
+                "against the spec with all invariants.",
+        "note": "Fixtures/parametrize/async are outside the model; evidence of execution is marker files written through write_file; "
+                "whether -x stops on XPASS is left open (undocumented); real sessions use 3 tests over 1-3 files.",
+    },
 }
